@@ -58,4 +58,21 @@ def suggestFn (level : Nat) (simple : Bool) (cur : Option V) (curId : Option Nat
 def suggestUpdate (level : Nat) (simple : Bool) (cur : Option V) (curId : Option Nat) (vs : List V) : Res :=
   if level = lNone then .keep else suggestFn level simple cur curId vs
 
+/-- what `MavenSuggester.Suggest` needs to know about ONE requirement of the manifest (`Requirements()`
+followed by `RequirementsForUpdates`): the level configured for its package, whether the loop skips it
+(development dependency with `IgnoreDev`, or an unresolved `${…}`), and the tables of
+`suggestMavenVersion` computed for THIS requirement — `cur` and every `diff` are relative to the
+requirement's own version, also when another requirement names the same package. -/
+structure RB where
+  level : Nat
+  skip : Bool
+  simple : Bool
+  cur : Option V
+  curId : Option Nat
+  vs : List V
+
+/-- the loop of `Suggest`: one answer per requirement, each computed from that requirement alone -/
+def suggestPatch (rbs : List RB) : List Res :=
+  rbs.map fun rb => if rb.skip then .keep else suggestUpdate rb.level rb.simple rb.cur rb.curId rb.vs
+
 end Scalibr.Suggest
